@@ -3,6 +3,7 @@ package oneonone
 import (
 	"context"
 	"sync"
+	"time"
 
 	"berty.tech/go-orbit-db/iface"
 	"berty.tech/go-orbit-db/internal/vstub"
@@ -232,4 +233,50 @@ func VerifC20AfterClose() {
 	vstub.WaitIdle()
 	vstub.Assert(len(em.got) == delivered, "C20 nothing is delivered to the emitter after Close")
 	vstub.Assert(vstub.LiveThreads("berty.tech/go-orbit-db/pubsub") == 0, "C20/C18 no monitor of the pairwise channel is left after Close and later calls")
+}
+
+func init() {
+	verifHarnesses["VerifC18ConnectCancelled"] = VerifC18ConnectCancelled
+}
+
+// VerifC18ConnectCancelled: a store's head exchange calls Connect with the
+// STORE's context and relies on Close cancelling it.  The remote peer never shows
+// up on the pairwise topic (it only subscribed to the database topic, or it is
+// gone); the caller's context ends: Connect returns, and nothing started on the
+// caller's behalf keeps polling for the peer while the channel object lives on.
+func VerifC18ConnectCancelled() {
+	self, other := peer.ID("self"), peer.ID("other")
+	em := &recEmitter{}
+	script := &vstub.ScriptedPubSub{LiveSubs: true, StickyLast: true, Snapshots: [][]peer.ID{{}}}
+	root, cancelRoot := context.WithCancel(context.Background())
+	c := &channels{selfID: self, emitter: em, logger: zap.NewNop(), subs: map[peer.ID]*channel{},
+		ipfs: &vstub.PubSubCoreAPI{PS: script}, ctx: root, cancel: cancelRoot}
+	storeCtx, closeStore := context.WithCancel(context.Background())
+	returned := make(chan struct{})
+	go func() {
+		defer close(returned)
+		_ = c.Connect(storeCtx, other) // waits for a peer that never comes
+	}()
+	vstub.WaitIdle()
+	polls := script.Polls
+	vstub.Cover("waiting-for-the-peer")
+	closeStore()
+	ended := false
+	select {
+	case <-returned:
+		ended = true
+	case <-time.After(3 * time.Second): // virtual time: a few polling intervals
+	}
+	vstub.Cover("caller-context-ended")
+	vstub.Assert(ended, "C18 Connect returns when the caller's (the store's) context ends although the peer never showed up")
+	if ended {
+		vstub.WaitIdle()
+		polls = script.Polls
+		<-time.After(3 * time.Second)
+		vstub.Assert(script.Polls <= polls+1, "C18 after the caller's context ended nothing keeps polling for the peer")
+	}
+	_ = c.Close()
+	cancelRoot()
+	vstub.WaitIdle()
+	vstub.Assert(vstub.LiveThreads("berty.tech/go-orbit-db/pubsub") == 0, "C18/C20 nothing of the pairwise channel is left after Close")
 }
